@@ -166,7 +166,7 @@ pub fn probe(_id: &str, tag: &str, what: &str) {
 pub fn replay_case(id: &str, op: &str, case: &serde_json::Value) -> Result<(), String> {
     if op == "crash" {
         // run the probe in a subprocess: the case is expected to kill it
-        let exe = std::env::current_exe().map_err(|e| e.to_string())?;
+        let exe = std::path::PathBuf::from("/proc/self/exe");
         let probe = format!("{}/target/probe-replay-{id}.json", crate::report::out_dir());
         std::fs::write(&probe, serde_json::json!({"tag": case["tag"], "what": case["what"]}).to_string()).map_err(|e| e.to_string())?;
         let st = std::process::Command::new(exe).args([id, "--probe", probe.as_str()]).env("NVCHECK_CHILD", "1").status().map_err(|e| e.to_string())?;
